@@ -118,8 +118,13 @@ impl From<&SecretKey> for PublicKey {
 impl PublicKey {
     /// Create a new public key
     pub fn new(public_key: CompressedPublicKey) -> Self {
-        let count = NonZeroUsize::new(public_key.max_messages).expect("non-zero");
-        let y = MessageGenerators::with_api_id(count, Some(&public_key.x.to_compressed())).0;
+        // a received key may announce zero messages: it then has no generators
+        let y = match NonZeroUsize::new(public_key.max_messages) {
+            Some(count) => {
+                MessageGenerators::with_api_id(count, Some(&public_key.x.to_compressed())).0
+            }
+            None => Vec::new(),
+        };
         Self { y, w: public_key.x }
     }
 
